@@ -23,7 +23,9 @@ RULE = (
     "case = (date stratum >= 2015, population, rounding flag, k nodes of the DAG incl. derived "
     "time-unit names); each node's own production column is fed back as a data column.  "
     "Non-trivial = the node has descendants among the targets and its column is not constant; "
-    "distinct = (stratum, node, population digest)."
+    "distinct = (stratum, node, population digest).  In addition up to 3 (quick) / 12 (thorough) rules per "
+    "case are supplied with OTHER values of the same dtype and compared with replacing the rule by a user "
+    "rule returning these values; non-trivial there = some other node changes (entries 'perturbed:<node>')."
 )
 ASSUMPTIONS = [
     "the supplied column is exactly the pandas column the first run returned (dtype as returned)",
@@ -66,7 +68,80 @@ def run_with(df, date, supplied: dict, targets, rounding):
     return res, overlap
 
 
-def check_nodes(df, date, chosen, rounding, pairs, stats=None):
+_IDS = {"fg_id", "bg_id", "eg_id", "ehe_id", "sn_id", "wthh_id"}
+N_PERTURB = {"quick": 3, "thorough": 12}
+
+
+def reader(name, src, typ):
+    """User rule `name(src) -> typ` that returns the data column `src` unchanged."""
+    scope = {}
+    exec(f"def {name}({src}: {typ}) -> {typ}:\n    return {src}\n", scope)  # noqa: S102
+    return scope[name]
+
+
+def perturbed(col):
+    """Other values of the same dtype (constant within any group if `col` is)."""
+    v = col.to_numpy()
+    if v.dtype.kind == "b":
+        return ~v, "bool"
+    if v.dtype.kind in "iu":
+        return v + 1, "int"
+    if v.dtype.kind == "f":
+        return v * 1.25 + 3.0, "float"
+    return None, None
+
+
+def check_used(df, date, n, base, rounding, nodes, stats=None):
+    """Sentence 1: the supplied column is *used in place of* the computation.
+
+    Differential oracle: supplying other values X' for rule n as a data column must give, on every
+    other node, what replacing rule n by a user rule that returns X' gives (the user-function path is
+    the subject of C06 and implemented by other code).  Equal values (the round trip above) cannot
+    see a consumer that keeps using the computation.
+    """
+    params, functions = env.policy_env(date)
+    new, typ = perturbed(base[n])
+    if new is None:
+        return []
+    targets = [t for t in nodes if t != n]
+    data_a = df.copy()
+    data_a[n] = new
+    src = f"vf_supplied_{n}"
+    data_b = df.copy()
+    data_b[src] = new
+    outs = []
+    for data, fns in ((data_a, functions), (data_b, {**functions, n: reader(n, src, typ)})):
+        try:
+            with warnings.catch_warnings():
+                warnings.simplefilter("ignore")
+                outs.append(compute_taxes_and_transfers(data=data, params=params, functions=fns,
+                                                        targets=targets, rounding=rounding))
+        except Exception as e:  # noqa: BLE001
+            outs.append(e)
+    a, b = outs
+    if isinstance(a, Exception) or isinstance(b, Exception):
+        if isinstance(a, Exception) and isinstance(b, Exception):
+            if stats is not None:
+                stats.append(("perturbed-both-raise:" + n, False, True))
+            return []
+        which = "as data column" if isinstance(a, Exception) else "through a user rule"
+        e = a if isinstance(a, Exception) else b
+        return [core.Failure(f"perturbed-raises:{n}", f"{date}: other values for {n} supplied {which} raise "
+                             f"{type(e).__name__}: {e!s:.150}, the other way they do not")]
+    key = np.arange(len(df))
+    diffs = compare.compare_frames(b, a, key_base=key, key_other=key, columns=targets, check_dtype=False, rtol=1e-12)
+    if stats is not None:
+        changed = compare.compare_frames(base, a, key_base=key, key_other=key, columns=targets, check_dtype=False)
+        stats.append(("perturbed:" + n, bool(changed), False))
+    if diffs:
+        d = diffs[0]
+        return [core.Failure(f"not-used:{n}->{d['column']}",
+                             f"{date}: with other values supplied for {n}, {d['column']} is not what it is when rule {n} "
+                             f"is replaced by a user rule returning these values ({d}); {len(diffs)} node(s) differ")]
+    return []
+
+
+def check_nodes(df, date, chosen, rounding, pairs, stats=None, n_perturb=3):
     nodes = env.all_nodes(date)
     nodeset = set(nodes)
     targets0 = sorted(nodeset | set(chosen))
@@ -93,6 +168,8 @@ def check_nodes(df, date, chosen, rounding, pairs, stats=None):
     groups = [[n] for n in chosen]
     if pairs and len(chosen) >= 2:
         groups.append(chosen[:2])
+    for n in [c for c in chosen if c in functions and c not in _IDS][:n_perturb]:
+        fails.extend(check_used(df, date, n, base, rounding, nodes, stats))
     for grp in groups:
         supplied = {n: base[n] for n in grp}
         targets = [t for t in nodes if t not in grp]
@@ -148,10 +225,16 @@ def check_nodes(df, date, chosen, rounding, pairs, stats=None):
 def oracle(case, date, sh, ctx):
     pop, chosen, rounding, pairs = case
     stats = []
-    fails = check_nodes(pop.df, date, chosen, rounding, pairs, stats)
+    fails = check_nodes(pop.df, date, chosen, rounding, pairs, stats, n_perturb=N_PERTURB[ctx["tier"]])
     pdg = core.digest([pop.df["p_id"].tolist(), pop.df["bruttolohn_m"].tolist()])
     for n, desc, const in stats:
-        sh.classes["node-with-descendants" if desc else "leaf-target"] += 1
+        if n.startswith("perturbed"):
+            sh.classes["perturbed:both-ways-raise" if const else
+                       ("perturbed:changes-other-nodes" if desc else "perturbed:no-other-node-changes")] += 1
+        elif n.startswith("minimal:"):
+            sh.classes["minimal-data-warning-call"] += 1
+        else:
+            sh.classes["node-with-descendants" if desc else "leaf-target"] += 1
         if desc and not const:
             sh.nontrivial.add(f"{ctx['iso']}|{n}|{pdg}")
     sh.extra.setdefault("nodes_fed_back", [])
@@ -175,4 +258,4 @@ def run(tier, seed, t0):
 
 def replay(case):
     df, date = popcheck.unpack(case)
-    return check_nodes(df, date, case["chosen"], case["rounding"], case.get("pairs", False))
+    return check_nodes(df, date, case["chosen"], case["rounding"], case.get("pairs", False), n_perturb=99)
